@@ -2,6 +2,20 @@
 from container_common import *
 
 
+def in_estimator_range(p):
+    """Params!InEstimatorRange for vectors with a dictionary (the only ones the prediction traces carry)."""
+    if not p or len(p) != 18:
+        return False
+    return (p[0] in (0, 1) and p[1] in (0, 1, 2) and p[2] in (0, 1) and 9 <= p[3] <= 15 and 1 <= p[4] <= 7
+            and ((p[5], p[6]) in ((5, 32767), (4, 2047)) if p[4] == 1 else (p[5], p[6]) == (0, 0))
+            and (p[4] in (1, 2, 3, 6) if p[15] == 3 else p[4] in (4, 5, 7))
+            and p[7] in (127, 255, 511, 1023, 2047, 4095, 8191, 16383, 32767) and 0 <= p[8] <= 32768
+            and p[9] in (0, 1) and p[10] in (0, 1)
+            and (p[11], p[12]) in ((0, 0), (4, 4), (8, 16), (8, 32), (32, 128), (32, 258)) and p[13] in (8, 16, 32, 128, 258)
+            and 1 <= p[14] <= 4096 and 3 <= p[15] <= 258 and 0 <= p[16] <= 4
+            and (0 <= p[17] <= 255 if p[16] in (1, 2) else p[17] == 0))
+
+
 def run_check(tier, seed, replay=None):
     c = Check("C04", tier, seed)
     build_harness()
@@ -78,6 +92,10 @@ def run_check(tier, seed, replay=None):
         case = mcases.get(x["run"], {})
         if not same_versions:
             continue
+        if case.get("forced") and not in_estimator_range(x["reset"].get("params")):
+            c.defer_tool_error("Trace_Match rejects a run under a parameter vector outside the estimator's range (%s): no stored "
+                               "data can carry it; the specification needs attention" % x["reset"].get("params"))
+            continue
         c.violation("prediction:%s" % ev.get("e"),
                     "the predictor no longer predicts what the frozen format (Match.tla) demands: %s on %s, parameters %s" % (
                         json.dumps(ev), x["reset"].get("label"), x["reset"].get("params")),
@@ -98,6 +116,10 @@ def run_check(tier, seed, replay=None):
         raise ToolError("vacuity: no exhaustive small-scope run was analysed")
     for x in xrej:
         if not same_versions:
+            continue
+        if not in_estimator_range(x["reset"].get("params")):
+            c.defer_tool_error("Trace_Match rejects an exhaustive run under a parameter vector outside the estimator's range (%s)" %
+                               x["reset"].get("params"))
             continue
         ev = x["event"]
         case = xcases.get(x["run"], {})
